@@ -158,7 +158,11 @@ func instrumentPkg(dir, rel, out string, overlay map[string]string) ([]site, err
 						} else {
 							fmt.Fprintf(&b, " if _, %s := (%s)[%s]; !%s { continue };", okvar, xs, keyName, okvar)
 						}
+						// the original body becomes a nested block, so that it may redeclare the
+						// loop variables (the "k, v := k, v" idiom)
+						b.WriteString(" {")
 						edits = append(edits, edit{int(x.For) - base, int(x.Body.Lbrace) - base + 1, b.String()})
+						edits = append(edits, edit{int(x.Body.Rbrace) - base, int(x.Body.Rbrace) - base, "}"})
 						p := fset.Position(x.For)
 						sites = append(sites, site{sname, "range", filepath.Join(rel, filepath.Base(fname)), p.Line})
 					case *ast.CallExpr:
